@@ -127,7 +127,8 @@ def run_dynamic(spec):
     for model in ("thread", "main_thread_only"):
         label = f"{label0}:{model}"
         group = execnet.Group()
-        saved_env = {k: os.environ.get(k) for k in ("PYTHONPATH", "EXECNET_DEBUG", "PATH", "PYTHONIOENCODING")}
+        saved_env = {k: os.environ.get(k) for k in ("PYTHONPATH", "EXECNET_DEBUG", "PATH", "PYTHONIOENCODING", "VERIF_SSH_HOME")}
+        cleanup_dirs: list = []
         # EXECNET_DEBUG selects other branches of the shipped source: they must be self-contained too
         dbg = {"thread": rng.choice((None, "1", "2")), "main_thread_only": rng.choice((None, "1"))}[model]
         try:
@@ -163,9 +164,19 @@ def run_dynamic(spec):
                 host = rng.choice(("fakehost", "-p 2222 me@fakehost", "me@fakehost")) if spec["path"] == "ssh" else "default"
                 extra = rng.choice(("", "//ssh_config=/nonexistent/ssh.cfg", "//chdir=" + os.path.join(core.VERIF, "vlib"), "//env:VERIF_X=1"))
                 # "python3" is found on the login shell's PATH: the distribution's interpreter, which has no execnet
-                pyarg = rng.choice((f"{py} -S -E", "python3"))
+                pyarg = rng.choice((f"{py} -S -E", "python3", "~/bin/py -S -E", "$HOME/bin/py -S -E"))
                 if pyarg == "python3":
                     res.count("workers_on_system_python_via_login_path")
+                elif "/bin/py " in pyarg:
+                    # a per-user interpreter named relative to the remote home: expanded by the remote login shell
+                    import tempfile
+
+                    home = tempfile.mkdtemp(prefix="verif-c15-home-")
+                    os.makedirs(os.path.join(home, "bin"))
+                    os.symlink(py, os.path.join(home, "bin", "py"))
+                    os.environ["VERIF_SSH_HOME"] = home
+                    cleanup_dirs.append(home)
+                    res.count("workers_named_by_remote_shell_expansion")
                 gw = group.makegateway(f"{spec['path']}={host}//python={pyarg}//execmodel={model}{extra}")
                 probe_on = [gw]
             elif spec["path"] == "via":
@@ -226,6 +237,10 @@ def run_dynamic(spec):
             res.violation(f"bare-bootstrap-failed:{spec['path']}:{type(e).__name__}", f"{label}: {str(e)[-400:]}")
         finally:
             group.terminate(3.0)
+            for d_ in cleanup_dirs:
+                import shutil
+
+                shutil.rmtree(d_, ignore_errors=True)
             for k, v in saved_env.items():
                 if v is None:
                     os.environ.pop(k, None)
